@@ -451,6 +451,9 @@ DEFS = '''#define A 1
 #define pl(a, b) a+b
 #define XS(x) S(x)
 #define SX(x) #x x
+#define HASH #
+#define HH # A
+#define FH(x) HASH x
 '''
 USES = ['A;', 'B;', 'F(2);', 'F(A);', 'F(B);', 'G(1, F(2));', 'G((1,2), 3);', 'G(F(1), G(2, 3));', 'S(a  +   b);', 'S(\n a \n b);', 'S( x\ny );', 'S("x\\"y" + \'c\');',
         'S(A);', 'S(F(1));', 'T(A, B);', 'T( p q ,r\ns);', 'V(1,2);', 'V((1,2),F(3));', 'W(1, 2, 3);', 'W(A,p\nq);', 'R;', 'R R;', 'P(1);', 'F\n(3);', 'F  (3);', 'N(4);', 'N;', 'F ;',
@@ -461,7 +464,9 @@ USES = ['A;', 'B;', 'F(2);', 'F(A);', 'F(B);', 'G(1, F(2));', 'G((1,2), 3);', 'G
         # expanding the same thing twice gives the same result; a later #define is seen by earlier-defined macros
         'B; B; N(1); N(1); R; R;', 'P(1); P(1);', 'h w); h w);',
         # a parameter that is both stringized and substituted
-        'SX(a b);', 'SX(A);', 'SX(obj);', 'SX(F(1));', 'SX(t(t(A)) + E());', 'SX((F)(2));']
+        'SX(a b);', 'SX(A);', 'SX(obj);', 'SX(F(1));', 'SX(t(t(A)) + E());', 'SX((F)(2));',
+        # `#` is an operator only in the replacement list of a function-like macro; in an object-like macro it is an ordinary token
+        'HASH;', 'HH;', 'XS(HASH);', 'S(HASH);', 'FH(1);', 'F(HASH);', 't(HH) HASH;']
 BAD = [('F(1;', 'EOF'), ('G(1);', 'not enough'), ('F(1,2);', 'too many'), ('E(1);', 'too many')]
 
 REDEF = [
